@@ -502,11 +502,9 @@ impl VersionedSerializer {
         }
         
         // Check version skew
-        let version_diff = if stored_version > current_version {
-            stored_version.minor() - current_version.minor()
-        } else {
-            current_version.minor() - stored_version.minor()
-        };
+        // The order of two versions is decided by the major number first, so the newer
+        // version can have the smaller minor number (2.0.0 vs 1.5.0): take the distance.
+        let version_diff = stored_version.minor().abs_diff(current_version.minor());
         
         if version_diff > self.config.max_version_skew {
             return Err(ZiporaError::invalid_data(
